@@ -483,7 +483,7 @@ def interpolate_laplacian(molgrid: MolGrid | AtomGrid, func_vals: np.ndarray):
             return first_component + second_component - third_component
 
         interpolate_funcs.append(
-            lambda points, cut_off, atom_grid=atom_grid: interpolate_laplacian_atom_grid(
+            lambda points, cut_off, atom_grid=atom_grid, interp=interpolate_laplacian_atom_grid: interp(
                 points, atom_grid, cut_off
             )
         )
